@@ -4,7 +4,7 @@
     wellformed <schema-sexp>
 
   answers what the model predicts for the code generated from the schema:
-    accepted=<bool> problems=<item;item;...>
+    accepted=<bool> names=<chosen,chosen,...> problems=<item;item;...>
   `accepted`: the model's necessary conditions for sbeppc to accept the schema
   hold (names, values, ranges, uniqueness, layout) and every literal site the
   model enumerates carries a value that passed the validator's check for it
@@ -12,7 +12,9 @@
   problem: `class|entity|name|on`, `on` ∈ all | gcc | clang | pre17 | maybe
   (configurations that reject) or `none` (well-formed, but the literal denotes
   another value than the schema says).  `problems=` empty: every header and the
-  touch-everything translation unit must compile.
+  touch-everything translation unit must compile.  `names`: the class names the
+  model's names generator (driven by the decision sites extracted from
+  names_generator.hpp) chose, see `chosenNames`.
 
   The S-expression is the one of vlib/schema.py plus the optional fields
   `(packageText x<hex>)` (the `package` attribute when it is not a plain atom)
@@ -83,9 +85,32 @@ def duplicateCaseProblems (s : SchemaDef) : List Scope.Problem :=
         | _ => [])
   go "types." 64 s.types
 
+/-- the two descriptions of what lands in the `detail` namespaces (the generator's `declared` log, about which
+    `detail_*_distinct` are proved, and the declaration list the scope problems are computed from) must agree -/
+def consistencyProblems (s : SchemaDef) : List Scope.Problem :=
+  match Scope.nsDecls s, Scope.typeNames s.types, Scope.messageNames s.messages with
+  | some ds, some ts, some ms =>
+    (if Scope.detailNames "detail.types" ds == ts.declared then []
+     else [⟨"model-inconsistent", "detail.types", "declared", "all"⟩]) ++
+    (if Scope.detailNames "detail.messages" ds == ms.declared then []
+     else [⟨"model-inconsistent", "detail.messages", "declared", "all"⟩])
+  | _, _, _ => []
+
 def allProblems (s : SchemaDef) (x : Literals.SchemaTexts) : List Scope.Problem :=
-  Scope.nameProblems s ++ Scope.paramProblems s ++ Scope.includeProblems s ++ literalProblems s x ++
-  headerTypeProblems s ++ duplicateCaseProblems s
+  Scope.nameProblems s ++ Scope.duplicateProblems s ++ consistencyProblems s ++ Scope.paramProblems s ++
+  Scope.includeProblems s ++ literalProblems s x ++ headerTypeProblems s ++ duplicateCaseProblems s
+
+/-- the names the generator chose: `T|I:<schema name>:<class>` for public / inline types, `M:<name>:<class>` for
+    messages, `G:<name>:<class>:<entry class>` for groups, in generation order; `C:types:<struct>` / `C:messages:<struct>`
+    for the two tag containers of `S::schema` -/
+def chosenNames (s : SchemaDef) : List String :=
+  ((Scope.typeNames s.types).map (fun ts =>
+      ts.out.map (fun a => (if a.isPublic then "T:" else "I:") ++ a.name ++ ":" ++ a.impl))).getD [] ++
+  ((Scope.messageNames s.messages).map (fun ms =>
+      ms.out.map (fun a => if a.isMessage then "M:" ++ a.name ++ ":" ++ a.impl
+                           else "G:" ++ a.name ++ ":" ++ a.impl ++ ":" ++ a.entry))).getD [] ++
+  ((Scope.tagTypesName s.types).map (fun n => ["C:types:" ++ n])).getD [] ++
+  ((Scope.tagMessagesName s.messages).map (fun n => ["C:messages:" ++ n])).getD []
 
 def accepted (s : SchemaDef) : Bool := acceptedB s
 
@@ -104,6 +129,7 @@ def handle (payload : String) : String :=
       let ps := allProblems s ⟨pkg⟩
       -- every literal site of an accepted schema must have passed the check sbeppc applies to its value
       let sitesOk := (Literals.literalSites s ⟨pkg⟩).all (fun site => site.validated)
-      s!"accepted={accepted s && sitesOk} problems=" ++ ";".intercalate (ps.map fmtProblem)
+      s!"accepted={accepted s && sitesOk} names=" ++ ",".intercalate (chosenNames s) ++ " problems=" ++
+        ";".intercalate (ps.map fmtProblem)
 
 end Sbepp.Drive.C07
